@@ -128,6 +128,27 @@ PROPS = {
                      "byte sent and every log line for each password used (right or attempted). Non-trivial = credential file with >=2 users, >=1 successful "
                      "authenticate, >=1 element invisible to an authenticated peer or a denied set/call, and >=1 request by an unauthenticated peer (default); "
                      "adds from both local and remote origins (local variant); distinct = scenario hash."),
+    "C19": dict(module=True, engine="module-pbt", driver="c19", variants=["default"], level="exploration", kinds=["asan"],
+                repo_sources=["websocket.c", "compression.c", "http_connection.c", "http_server.c", "http-parser/http_parser.c", "base64.c", "sha1/sha1.c", "utf8_checker.c",
+                              "alloc.c", "jet_string.c", "linux/jet_string.c", "posix/jet_string.c", "linux/jet_endian.c",
+                              "zlib/adler32.c", "zlib/deflate.c", "zlib/inffast.c", "zlib/inflate.c", "zlib/inftrees.c", "zlib/trees.c", "zlib/zutil.c"],
+                prefix_defined_in=["zlib/adler32.c", "zlib/deflate.c", "zlib/inffast.c", "zlib/inflate.c", "zlib/inftrees.c", "zlib/trees.c", "zlib/zutil.c"],
+                shims=["c19_shim.c"], libs=["-lrapidcheck", "-lz"],
+                quick=dict(plan=[dict(bin="asan", mode="random", cases=2500, size=40) for _ in range(16)]),
+                thorough=dict(plan=[dict(bin="asan", mode="random", cases=150000, size=80) for _ in range(16)], budget_s=3000),
+                rule="a WebSocket server endpoint built from the real websocket.c, compression.c, http_connection.c and the vendored zlib (symbols prefixed) at "
+                     "compression levels 0-3, driven over an in-memory reader by a client that uses the system zlib. rapidcheck generates the extension offer "
+                     "(0-3 offers of permessage-deflate or other names with 0-4 parameters: client/server_max_window_bits with and without values 8-15, both "
+                     "no_context_takeover flags, duplicates, out-of-range and unknown parameters) and a sequence of messages in both directions (text/binary; "
+                     "empty, 1-9 bytes, repetitive and incompressible up to 500 bytes, JSON-like), client messages in 1-6 fragments of 1..400 bytes, some with a bit "
+                     "flip, a truncation or random bytes in the compressed stream. Oracles: the response parameters are justified by a valid offer or server-"
+                     "choosable (RFC 7692 7.1), values 8-15 and not above the offer, no duplicates; every uncorrupted client message reaches the application "
+                     "callback unchanged exactly once; every server frame inflates (system zlib, negotiated window, context takeover as agreed) to the message "
+                     "sent; corrupt streams cause no sanitizer report; no accounted memory and no LeakSanitizer leak remains. Each case runs in a forked child "
+                     "under ASan+UBSan+LSan. Non-trivial = extension accepted and a non-empty or fragmented or corrupted message was exchanged; distinct = case hash.",
+                technique="rapidcheck differential testing against system zlib as independent peer, RFC 7692 legality predicate, sanitizers",
+                level_text="Sampling of offers, payloads, fragmentations and corruptions against an independent codec; no exhaustive sub-domain.",
+                level_note="Trusts system zlib 1.2.13, the harness frame codec and its reading of RFC 7692 7.1; the daemon itself runs compression level 0, so this is a module-level property."),
     "C20": scen("c20", ["default"], level="fault_enumeration",
                 quick=dict(cases=200, size=40), thorough=dict(cases=6000, size=80, budget_s=3000),
                 rule="rapidcheck-generated histories of authenticate / passwd on 2-5 connections over a credential file with plain, admin, read-only and "
@@ -271,12 +292,30 @@ def build_module(prop, variant):
     for kind in spec["kinds"]:
         san = ["-fsanitize=address,undefined", "-fno-sanitize-recover=undefined"] if kind == "asan" else []
         objs = []
+        prefixed = []
         for f in src + shim:
-            o = os.path.join(tmp, kind + "_" + os.path.basename(f)[:-2] + ".o")
+            rel = os.path.relpath(f, os.path.join(REPO, "src")) if f.startswith(REPO) else os.path.basename(f)
+            o = os.path.join(tmp, kind + "_" + rel.replace("/", "_")[:-2] + ".o")
             _run(["clang", "-std=gnu99", "-D_GNU_SOURCE", "-DNO_GZIP", "-g", "-O2", "-Wno-everything"] + san + spec.get("cflags", []) + inc + ["-c", f, "-o", o])
-            for a, b in spec.get("redefine", []):
-                _run(["objcopy", "--redefine-sym", "%s=%s" % (a, b), o])
             objs.append(o)
+            if any(rel == x for x in spec.get("prefix_defined_in", [])):
+                prefixed.append(o)
+        if prefixed:
+            # every global symbol defined by these objects (the vendored zlib) gets a prefix in all objects, so that the
+            # harness can link the system zlib as an independent implementation
+            names = set()
+            for o in prefixed:
+                r = subprocess.run(["nm", "--defined-only", "-g", o], capture_output=True, text=True)
+                for line in r.stdout.splitlines():
+                    parts = line.split()
+                    if len(parts) == 3 and not parts[2].startswith("__"):
+                        names.add(parts[2])
+            symfile = os.path.join(tmp, kind + "_prefix.syms")
+            with open(symfile, "w") as fh:
+                for n in sorted(names):
+                    fh.write("%s cjz_%s\n" % (n, n))
+            for o in objs:
+                _run(["objcopy", "--redefine-syms=" + symfile, o])
         for (f, defs, name) in spec.get("multi", []):
             o = os.path.join(tmp, kind + "_" + name + ".o")
             _run(["clang", "-std=gnu99", "-D_GNU_SOURCE", "-g", "-O2", "-Wno-everything"] + san + defs + inc + ["-I", os.path.join(VERIF, "modules"), "-c", os.path.join(VERIF, "modules", f), "-o", o])
